@@ -272,6 +272,8 @@ class Gen:
             p = {'name': '%s_%s' % (pfx, 'abcdef'[i]), 'type': t}
             if rng.random() < 0.08:
                 p['type'] = 'untyped'
+            if rng.random() < 0.06:
+                p['name'] = '_' + p['name']     # "private" looking parameter
             own.append(p)
         if base is not None and rng.random() < 0.25:
             # recursive hierarchy: a derived class holds objects of one of its
@@ -495,6 +497,13 @@ class Gen:
         elif r < 0.42:
             c['savorize'] = [['record']]
             c['sweeten'] = [['record']]
+        elif r < 0.5 and not c.get('extra') and 'zmark' not in names \
+                and not chain_recog:
+            # a marker attribute written by the sweetener through the Node
+            # helpers (null, bool, number or text) and removed on loading
+            c['savorize'] = [['remove_attr', 'zmark']]
+            c['sweeten'] = [['set_attr', 'zmark', rng.choice(
+                [None, None, True, 3, M.enc(2.5), 'txt'])]]
 
     def build(self):
         rng = self.rng
